@@ -22,12 +22,23 @@ Double(m) == [i \in 1..Len(m) |-> [k \in 1..Len(m[i]) |-> IF m[i][k] = NINF THEN
 
 \* scores in units of 1/U, U = 2 G:  w/U >= s/U + c/ginv   <=>   (w - s) * ginv >= U c
 Uof(e) == 2 * e.G
+\* Queries just above a grid score: events carrying `eps` ask for s = s8 / U + 3e-8 (the refinement then runs down to
+\* g = 1e-8 .. 1e-10, where x * ginv no longer fits 32 bits).  With T = U c / ginv (c = M+1 or M+2) and w, s8 integers:
+\*   w/U >= s + c g  <=>  w - s8 >= ceil(T + U eps)  = floor(T) + 1        while T > U eps, i.e. c * 10^(8-k) > 3, and 1 afterwards
+\*   w/U >= s - c g  <=>  w - s8 >= ceil(U eps - T)  = -(ceil(T) - 1)      while T > U eps,                     and 1 afterwards
+Pow10(n) == IF n = 0 THEN 1 ELSE IF n = 1 THEN 10 ELSE IF n = 2 THEN 100 ELSE IF n = 3 THEN 1000 ELSE IF n = 4 THEN 10000
+            ELSE IF n = 5 THEN 100000 ELSE IF n = 6 THEN 1000000 ELSE IF n = 7 THEN 10000000 ELSE 100000000
+Coarse(c, k) == k <= 8 /\ c * Pow10(8 - k) > 3
+EpsHi(e, it, M) == IF Coarse(M + 1, it.k) THEN (Uof(e) * (M + 1)) \div it.ginv + 1 ELSE 1
+EpsLo(e, it, M) == IF Coarse(M + 2, it.k) THEN -(((Uof(e) * (M + 2) + it.ginv - 1) \div it.ginv) - 1) ELSE 1
+
 \* events carrying `sat`: saturating distribution, recorded numerators clamped at the same cap by the recorder
 PvIterOK(D, e, it, M) ==
   LET sat == "sat" \in DOMAIN e
+      eps == "eps" \in DOMAIN e
       TWp(P(_)) == IF sat THEN TailWhereSat(D, P, e.sat) ELSE TailWhere(D, P)
-      lo == TWp(LAMBDA w : (w - e.s8) * it.ginv >= Uof(e) * (M + 1))
-      hi == TWp(LAMBDA w : (w - e.s8) * it.ginv >= -(Uof(e) * (M + 2)))
+      lo == IF eps THEN TWp(LAMBDA w : w - e.s8 >= EpsHi(e, it, M)) ELSE TWp(LAMBDA w : (w - e.s8) * it.ginv >= Uof(e) * (M + 1))
+      hi == IF eps THEN TWp(LAMBDA w : w - e.s8 >= EpsLo(e, it, M)) ELSE TWp(LAMBDA w : (w - e.s8) * it.ginv >= -(Uof(e) * (M + 2)))
       sl == IF it.exact = 1 THEN 0 ELSE 1
   IN /\ 0 <= it.pmin /\ it.pmin <= it.pmax /\ it.pmax <= (IF sat THEN e.sat ELSE e.den) + sl
      /\ lo - sl <= it.pmin
@@ -41,7 +52,7 @@ ApplyPv(s, e) ==
       \* fidelity of the I-layer model (advisory): some admissible row permutation makes Tfm!LookupPv reproduce the
       \* logged range of every coarse iteration exactly (only for exact numerators and the first granularity 1/10; 1/100 is covered by MC_Tfm)
       fid == \A q \in 1..Len(e.iters) :
-               (e.iters[q].ginv <= 10 /\ e.iters[q].exact = 1 /\ "sat" \notin DOMAIN e) =>
+               (e.iters[q].ginv <= 10 /\ e.iters[q].exact = 1 /\ "sat" \notin DOMAIN e /\ "eps" \notin DOMAIN e) =>
                  \E pm \in Perms(e.pssm, e.K) :
                     LookupPv(e.pssm, pm, e.bn, e.bd, e.K, e.iters[q].ginv, e.G, e.s8, FALSE) = <<e.iters[q].pmin, e.iters[q].pmax>>
   IN [ok |-> progress /\ bad = {}, st |-> s,
@@ -49,7 +60,8 @@ ApplyPv(s, e) ==
       exp |-> [why |-> IF ~progress THEN "no_iteration" ELSE "pvalue_range_outside_exact_tail_bounds",
                detail |-> IF bad = {} THEN <<>> ELSE
                   LET q == CHOOSE q \in bad : TRUE  it == e.iters[q] IN
-                  <<it.k, it.pmin, it.pmax,
+                  IF "eps" \in DOMAIN e THEN <<it.k, it.pmin, it.pmax, EpsHi(e, it, M), EpsLo(e, it, M)>>
+                  ELSE <<it.k, it.pmin, it.pmax,
                     TailWhere(D, LAMBDA w : (w - e.s8) * it.ginv >= Uof(e) * (M + 1)),
                     TailWhere(D, LAMBDA w : (w - e.s8) * it.ginv >= -(Uof(e) * (M + 2)))>>]]
 
